@@ -256,11 +256,17 @@ def check(tier, seed):
         ("extension-union", "type A { a: Int } union U = A type Query { u: U } extend union U = Extra"),
         ("extension-implements", "type Query { a: Int x: Extra } interface J { e: String } extend type Query implements J { e: String }"),
         ("directive-definition", "directive @d(r: Range) on FIELD type Query { a: Int }"),
+        # supplied types that are instances of SUBCLASSES of the schema classes (the library's own RegexType, a user's enum class)
+        ("subclass-instances", "type Query { s(x: Slug = \"a-b\"): Slug e: Level }"),
     ]:
         for extra_ext in ("", " extend type Query { zz: Int }"):
             n += 1
+            from py_gql.schema import EnumType, RegexType
+
+            class _Level(EnumType):
+                pass
             supplied = [ScalarType("Date", serialize=str, parse=str), InputObjectType("Range", [InputField("lo", String)]),
-                        ObjectType("Extra", [Field("e", String)])]
+                        ObjectType("Extra", [Field("e", String)]), RegexType("Slug", r"^[a-z0-9-]+$"), _Level("Level", [("LOW", 1), ("HIGH", 2)])]
             w = {"sdl": text + extra_ext, "additional_types": [t.name for t in supplied], "referenced_from": label}
             try:
                 schema = build_schema(text + extra_ext, additional_types=supplied)
@@ -278,8 +284,19 @@ def check(tier, seed):
                 used = _re.search(r"\b%s\b" % t.name, text) is not None
                 got_t = schema.types.get(t.name)
                 # (the object itself may be rebuilt when extensions are merged: what must survive is its kind, members and behaviour)
-                same = type(got_t) is type(t) and [f.name for f in getattr(got_t, "fields", [])] == [f.name for f in getattr(t, "fields", [])] and (
-                    not isinstance(t, ScalarType) or (got_t.serialize(5), got_t.parse("x")) == (t.serialize(5), t.parse("x")))
+                def probe(x):
+                    out = []
+                    for fn_, arg in (("serialize", 5), ("serialize", "a-b"), ("parse", "x"), ("parse", "NOT A SLUG"), ("get_value", "LOW"), ("get_name", 2)):
+                        try:
+                            out.append(getattr(x, fn_)(arg))
+                        except Exception as e_:
+                            out.append(type(e_).__name__)
+                    return out
+                kinds_ = (ScalarType, ObjectType, InputObjectType, EnumType)
+                kind_of = lambda x: next((k for k in kinds_ if isinstance(x, k)), type(x))          # noqa: E731
+                # (a subclass instance may come back as an instance of its base as long as it behaves the same: kind, members and behaviour are what is declared)
+                same = got_t is not None and kind_of(got_t) is kind_of(t) and [f.name for f in getattr(got_t, "fields", [])] == [f.name for f in getattr(t, "fields", [])] \
+                    and probe(got_t) == probe(t)
                 if used and not same:
                     run.violation("build_schema:supplied-types-are-used-as-given", "the supplied type %s is referenced by the document but the schema holds %r under that name"
                                   % (t.name, got_t), dict(w, type=t.name), True)
